@@ -34,6 +34,7 @@ def floors(m, tier):
     return {"get() calls compared": (c.get("get_calls", 0), u * k),
             "records compared": (c.get("records", 0), u * k * 2),
             "records with stored data": (c.get("records_with_data", 0), u * k // 4),
+            "falsy stored values read": (c.get("falsy_values", 0), u),
             "GetFromAll comparisons": (c.get("all_calls", 0), u * k // 4),
             "types without getter": (c.get("all_no_getter", 0), u),
             "get_one/get_data/get_attr": (c.get("single_calls", 0), u * 5)}
@@ -59,6 +60,9 @@ def write_sidecars(lab, rng, conf):
                     continue
                 dp = str(conf.get_data_json_path(Path(p)))
                 data = {k: "%s:%s" % (e, k) if k != "frames" else rng.randint(1, 200) for k in KEYS if rng.random() < 0.6}
+                for k in list(data):
+                    if rng.random() < 0.15:
+                        data[k] = rng.choice([0, False, "", [], {}, None])      # falsy stored values are values too
                 with open(dp, "w") as f:
                     json.dump(data, f)
                 st[dp] = data
@@ -113,6 +117,8 @@ def check_get(rec, lab, conf, store, c, s, attributes, encname, case):
         data = stored(lab, conf, store, c, str(x)) or {}
         if data:
             rec.count("records_with_data")
+            if any(v in (0, False, "", None) or v == [] or v == {} for v in data.values()) and attributes:
+                rec.count("falsy_values")
         exp = expected_record(data, x.uri, encname, attributes)
         if r != exp:
             rec.violation("record_differs", dict(cs, sid=str(x)), "got %r expected %r" % (r, exp))
@@ -153,6 +159,8 @@ def check_get(rec, lab, conf, store, c, s, attributes, encname, case):
             exp.append(r)
         # types without getter may also be types FindInPaths does not serve; compare as sequences of records
         key = lambda d: json.dumps(d, sort_keys=True, default=str)
+        if sorted(map(key, allrecs)) == sorted(map(key, exp)) and list(map(key, allrecs)) != list(map(key, exp)):
+            rec.violation("GetFromAll_order_differs", cs, "GetFromAll %r vs GetFromPaths %r" % (allrecs[:4], exp[:4]))
         if sorted(map(key, allrecs)) != sorted(map(key, exp)):
             rec.violation("GetFromAll_differs", cs, "GetFromAll %d records, expected %d: %r vs %r" % (len(allrecs), len(exp), allrecs[:3], exp[:3]))
 
@@ -169,7 +177,7 @@ def worker(args):
         c = args["replay"]
         rec.ev()
         import random
-        lab.new_universe(ents=c["ents"], names=c.get("names"))
+        lab.new_universe(ents=c["ents"], names=c.get("names"), only_default=c.get("only_default"))
         store = write_sidecars(lab, random.Random(c["data_seed"]), conf)
         check_get(rec, lab, conf, store, c["config"], c["search"], c["attributes"], c["enc"], dict(c))
         lab.trees.reset()
@@ -180,7 +188,7 @@ def worker(args):
         data_seed = rng.randrange(10 ** 9)
         store = write_sidecars(lab, random.Random(data_seed), conf)
         uid = "%s-%d" % (args.get("seed"), u)
-        case = {"ents": ents, "names": lab.names, "uid": uid, "data_seed": data_seed}
+        case = {"ents": ents, "names": lab.names, "only_default": lab.only_default, "uid": uid, "data_seed": data_seed}
         for k in range(args["searches"]):
             s, info = lab.search(allow_last=(rng.random() < 0.15))
             if filter_is_unspecified(s):
